@@ -11,7 +11,10 @@ from . import facts as F
 from .absint import Inconclusive
 
 VERIF = F.VERIF
-EVID = os.path.join(VERIF, "evidence")
+# evidence about /repo itself goes to /verif/evidence; a development run against another tree (ECLI_REPO, used by the
+# seeded-change matrix) must not overwrite it, so it writes beside that tree instead
+EVID = os.path.join(VERIF, "evidence") if os.environ.get("ECLI_REPO", "/repo") == "/repo" \
+    else os.path.join(os.environ["ECLI_REPO"], ".verif-evidence")
 KNOWN = os.path.join(VERIF, "known_findings.json")
 
 
